@@ -16,6 +16,7 @@
 #include "nlopt.h"
 #include "nlopt-internal.h"
 #include "nlopt-verif.h"
+#include <stddef.h>
 
 #define MAXC 16
 
@@ -326,6 +327,10 @@ static void mconstraint(unsigned m, double *result, unsigned n_, const double *x
     maybe_stop();
 }
 
+/* legacy (nlopt_func_old) adapters */
+static double objective_old(int n, const double *x, double *grad, void *data) { return objective((unsigned) n, x, grad, data); }
+static double sconstraint_old(int n, const double *x, double *grad, void *data) { return sconstraint((unsigned) n, x, grad, data); }
+
 /* ------------------------------------------------------------------------------- */
 static void getters(const char *phase, nlopt_opt o)
 {
@@ -433,6 +438,58 @@ static void one_run(const char *line)
     if ((v = getkey(line, "inj", b, sizeof b))) ninj = parse_inj(v, inj_k, inj_v);
     if ((v = getkey(line, "injc", b, sizeof b))) ninjc = parse_inj(v, injc_k, injc_v);
 
+    if ((v = getkey(line, "gpop", b, sizeof b))) nlopt_set_stochastic_population(atoi(v));
+    if ((v = getkey(line, "glocal", b, sizeof b))) {
+        int gd = 0, gn = 0, gm = 0;
+        sscanf(v, "%d:%d:%d", &gd, &gn, &gm);
+        nlopt_set_local_search_algorithm((nlopt_algorithm) gd, (nlopt_algorithm) gn, gm);
+    }
+    if (getint(line, "legacy", 0)) {
+        /* the one-call interface: scalar constraints only, data passed with a stride */
+        fdata_t *cd = &fdatas[1];
+        int mi = 0, pe = 0;
+        double htol = 0, *xa = NULL;
+        double *lbv = NULL, *ubv = NULL;
+        char *save = NULL, *it;
+        fdatas[0].magic = 0xC0FFEEu; fdatas[0].role = 0; fdatas[0].vec = 0;
+        if ((v = getkey(line, "ineq", b, sizeof b))) {
+            for (it = strtok_r(b, ";", &save); it; it = strtok_r(NULL, ";", &save)) {
+                int ck = 0, j0 = 0; unsigned long long tb = 0, bb = 0;
+                sscanf(it, "s:%d:%llx:%llx:%d", &ck, &tb, &bb, &j0);
+                cd[mi].magic = 0xC0FFEEu; cd[mi].role = 1; cd[mi].vec = 0; cd[mi].m = 1; cd[mi].ck = ck; cd[mi].b = u2d(bb); cd[mi].j0 = j0; cd[mi].index = mi;
+                ++mi;
+            }
+        }
+        if ((v = getkey(line, "eq", b, sizeof b))) {
+            for (it = strtok_r(b, ";", &save); it; it = strtok_r(NULL, ";", &save)) {
+                int ck = 0, j0 = 0; unsigned long long tb = 0, bb = 0;
+                fdata_t *e = &fdatas[1 + MAXC + pe];
+                sscanf(it, "s:%d:%llx:%llx:%d", &ck, &tb, &bb, &j0);
+                e->magic = 0xC0FFEEu; e->role = 2; e->vec = 0; e->m = 1; e->ck = ck; e->b = u2d(bb); e->j0 = j0; e->index = pe;
+                htol = u2d(tb);
+                ++pe;
+            }
+        }
+        if ((v = getkey(line, "lb", b, sizeof b))) parselist(v, &lbv);
+        if ((v = getkey(line, "ub", b, sizeof b))) parselist(v, &ubv);
+        if ((v = getkey(line, "x0", b, sizeof b))) parselist(v, &x0);
+        if ((v = getkey(line, "xtol_abs", b, sizeof b))) parselist(v, &xa);
+        x = (double *) malloc(sizeof(double) * (n + 1));
+        { unsigned i; for (i = 0; i < n; ++i) x[i] = x0 ? x0[i] : 0.0; x[n] = 777.0; }
+        optf = -12345.678;
+        ret = nlopt_minimize_econstrained((nlopt_algorithm) alg, (int) n, objective_old, &fdatas[0],
+                                          mi, sconstraint_old, cd, (ptrdiff_t) sizeof(fdata_t),
+                                          pe, sconstraint_old, &fdatas[1 + MAXC], (ptrdiff_t) sizeof(fdata_t),
+                                          lbv, ubv, x, &optf,
+                                          gethex(line, "stopval", -HUGE_VAL), gethex(line, "ftol_rel", 0.0), gethex(line, "ftol_abs", 0.0),
+                                          gethex(line, "xtol_rel", 0.0), xa, 0.0, htol,
+                                          (int) getint(line, "maxeval", 0), gethex(line, "maxtime", 0.0));
+        fprintf(out, "R ret=%d optf=", (int) ret); phex(out, optf);
+        fprintf(out, " x="); phexlist(out, x, (int) n);
+        fprintf(out, " calls=%ld objcalls=%ld numevals=%d fstop=%d guard=%d errmsg=%d\n", ncalls, nobj, -1, 0, x[n] == 777.0, 0);
+        fprintf(out, "END\n");
+        return;
+    }
     o = nlopt_create((nlopt_algorithm) alg, n);
     if (!o) { fprintf(out, "R create-failed\nEND\n"); return; }
     top = o;
